@@ -12,5 +12,9 @@ def handleEdits (toks : List String) : Option String :=
       let a := mkToksE (natList c1) (natListList r1)
       let b := mkToksE (natList c2) (natListList r2)
       some s!"{showBool (specC12 a b)} {showBool (specC14 a b)} {showBool (specC15 a b)}"
+  | ["edit.spec15", c1, r1, f1, c2, r2, f2] =>
+      let a := (mkToksE (natList c1) (natListList r1)).zip (natListList f1)
+      let b := (mkToksE (natList c2) (natListList r2)).zip (natListList f2)
+      some s!"{showBool (specC15F a b)}"
   | _ => none
 end SqlfluffVerif.Driver
